@@ -483,6 +483,7 @@ func (c *Ctx) checkWritten(op *Op, ri *respImpl, v reflect.Value, raw string, w 
 		}
 		if !fv.IsValid() {
 			c.Stat("unmapped", 1)
+			c.Viol("header-field-missing", "a declared response header has no field in the response value: it can never be written", in, ck, "no such field in "+v.Type().Name()+".Headers")
 			continue
 		}
 		got := w.Frozen[ck]
@@ -610,7 +611,8 @@ func (t *tap) do(r *http.Request) (*http.Response, error) {
 	t.lastReq = r
 	if r.Body != nil {
 		t.bodyIn, _ = io.ReadAll(r.Body)
-		r.Body = io.NopCloser(bytes.NewReader(t.bodyIn))
+		// like a server-side request body: reading after Close fails
+		r.Body = &strictBody{r: bytes.NewReader(t.bodyIn)}
 	} else {
 		t.bodyIn = nil
 		r.Body = http.NoBody
